@@ -121,4 +121,10 @@ var registry = []prop{
 		Thor:   tierCfg{Shards: 16, Scale: 8, TimeoutS: 1800},
 		Assume: []string{"documents are UTF-8, without namespaces or DTDs, written by the harness's own XML writer (internal/osmdoc) which knows element/attribute names from the OSM XML format description", "an absent attribute equals the zero value of its field; unknown top-level elements never contain OSM element names (the streaming scanner documents dispatch by element name at any depth)", "note dates use the notes API layout with whole seconds"},
 	},
+	{
+		ID: "C04", Pkg: "props/c04", Level: "exploration",
+		Quick:  tierCfg{Shards: 1, Scale: 1, TimeoutS: 300},
+		Thor:   tierCfg{Shards: 16, Scale: 8, TimeoutS: 1800},
+		Assume: []string{"strings are XML 1.0 representable, floats finite, times UTC; note dates have whole seconds (the notes API format has no fraction)", "nil and empty slices/blocks are the same value; an empty changeset discussion equals none (documented omission)", "create actions of a Diff hold exactly one element"},
+	},
 }
